@@ -484,6 +484,16 @@ func runServerScenario(sc *scenario) string {
 		time.Sleep(20 * time.Microsecond)
 	}
 
+	// all three loops have to be up (first tick of the read loop and of the stream loop) before
+	// any gate is set: a gate on a loop's first tick would hold it before it has ever waited
+	for time.Now().Before(deadline) {
+		t := http2.VerifTicks()
+		if t[0] >= 1 && t[2] >= 1 {
+			break
+		}
+		time.Sleep(20 * time.Microsecond)
+	}
+
 	dec := hpack.NewDecoder(4096, nil)
 	sent := int64(0)     // frames the read loop has to consume
 	handlerDone := int64(0)
@@ -593,7 +603,7 @@ func runServerScenario(sc *scenario) string {
 		}
 		cur, _ := http2.VerifGauges()
 		if !closed {
-			items = append(items, fmt.Sprintf("g%d,%d,%d", cur[0], cur[1], cur[2]))
+			items = append(items, fmt.Sprintf("g%d,%d,%d,%d,%d", cur[0], cur[1], cur[2], cur[3], cur[4]))
 		}
 		groups = append(groups, strings.Join(items, ";"))
 	}
